@@ -18,6 +18,7 @@ LEVEL_NOTE = ("Not decided: everything about computed *values* (that each evalua
 LEVEL_TEXT += (' Also: (C04.S) a strict scoped definition/assignment writes the variable map of the evaluated scope node itself; (E3.r) `$n` reads current_regex_captures[n] and a missing entry is UndefinedRegexCapture in both modes; (E5.var) VariableMap::add refuses a second definition and VariableMap::set writes mutable bindings only.  New helper functions are inlined into their callers before the rules run, and internal iteration (try_for_each/for_each with a local closure) is desugared to the explicit loop, so a refactoring does not change the verdict.')
 LEVEL_TEXT += (" (E5.mut) `var` is the only mutable definition, in checker, strict and lazy alike; (E3.ctx) nested blocks run in the enclosing context except for their own locals / error context (and a scan arm's captures); (E5.keep) the interpreters drop, merge or reorder elements of their collections only at the listed sites; results returned by closures are consumed only by error-keeping adaptors.")
 LEVEL_TEXT += (' (E5.store) deferred thunks are write-once (no element of the store is overwritten or handed out mutably); (E5.key) no table keyed by rendered text; the stanza-level full-match lookup takes the first node of the capture (E2.x-c), so the block runs for every match.')
+LEVEL_TEXT += (" (E5.eq) the order and equality of values (which decide set membership) are the derived, field-by-field ones.")
 
 
 def run(prog, rep):
@@ -56,6 +57,11 @@ def run(prog, rep):
     e5.no_dropped_elements(prog, rep)
     e5.no_text_keyed_tables(prog, rep)
     e5.deferred_stores_append_only(prog, rep, "E5.store")
+    na = e3_driver.element_loops_complete(prog, rep)
+    rep.floor("E3.all", na, 16, "element loops of the interpreters")
+    # set values are BTreeSets of Value: membership is decided by Ord, which must agree with the derived equality
+    e5.value_equality_structural(prog, rep, "E5.eq")
+    rep.rule("E5.eq", "equality/hash/order of Value, SyntaxNodeRef and GraphNodeRef are the derived, field-by-field ones")
     rep.rule("E2.d", "the result of every fallible call in the interpreter, graph, variables and functions modules is propagated, returned, "
                      "matched with an error-returning Err arm, or is a listed intentional absorption")
     files = ("src/execution/strict.rs", "src/execution.rs", "src/graph.rs", "src/variables.rs", "src/functions.rs", "src/execution/lazy.rs",
